@@ -54,13 +54,14 @@ META = {
                   "astype/isclose (validated each run against numpy on a value sweep and against the real "
                   "allclose on the generated cases; floating-point evaluation of the tolerance test inside "
                   "numpy is modelled exactly, cases closer than a dtype-dependent margin to the tolerance "
-                  "boundary are not generated); ONNX Runtime execution itself; complex modulus test "
-                  "expressed in squared (sqrt-free) form; bfloat16 and C-undefined float->int casts are "
+                  "boundary are not generated); ONNX Runtime execution itself; the complex modulus test is "
+                  "written sqrt-free in the model and proved equal to the modulus test over R "
+                  "(modulusLe_iff_real); bfloat16 and C-undefined float->int casts are "
                   "outside the model (reported as unspecified).",
     "design_ref": "DESIGN.md §3 C18",
 }
 
-MODS = ["J2O.Props.C18"]
+MODS = ["J2O.Props.C18", "J2O.Lemmas.C18Real"]
 
 NP = {
     "bool": np.bool_, "i8": np.int8, "i16": np.int16, "i32": np.int32, "i64": np.int64,
@@ -970,7 +971,7 @@ def run(chk: Check) -> None:
         "numpy evaluates |x-y| <= atol + rtol*|y| in floating point; the model is exact; cases within "
         "a relative margin (f16 1/24, f32 2^-12, f64 2^-30) of the boundary are not generated",
         "tolerances are non-negative",
-        "complex modulus comparison is written in squared (sqrt-free) form",
+        "complex modulus comparison is written sqrt-free (proved equivalent over the reals: modulusLe_iff_real)",
         "float->int casts of NaN/inf/out-of-range values are C-undefined: model answers 'unspecified'",
         "jax.config.update itself does not raise",
     ]
